@@ -45,27 +45,51 @@ def check(ctx, src):
     for n in ast.walk(f):
         if isinstance(n, ast.If) and norm(n.test).startswith("isinstance(form, ") and norm(n.test).count("(") == 1:
             arms[norm(n.test)[len("isinstance(form, "):-1]] = n
+    # emission sites of a constructor keyword: Keyword('<attr>') anywhere in render_quoted_form or in a helper it hands the
+    # form to; the site's path conditions say for which class and under which test of the attribute it is emitted
+    fns = [(f, "form")]
+    for c in pyq.calls(f):
+        h = comp.rm.func(c.func.id) if isinstance(c.func, ast.Name) else None
+        if h is not None and h is not f and h.args.args and all(h is not x for x, _ in fns) and any(isinstance(a, ast.Name) and a.id == "form" for a in c.args):
+            fns.append((h, h.args.args[[i for i, a in enumerate(c.args) if isinstance(a, ast.Name) and a.id == "form"][0]].arg))
     for cls, attrs in (("FString", ["brackets", "is_tstring"]), ("FComponent", ["conversion", "expression", "is_tstring"]), ("String", ["brackets"])):
-        arm = arms.get(cls)
-        ctx.check(arm is not None, "Q-ATTRS", f"{R}|render_quoted_form|arm {cls}", f"no arm for {cls}", R, f.lineno, detail="present")
-        if arm is None:
-            continue
         for a in attrs:
-            emit = pyq.contains(arm.body, lambda x: isinstance(x, ast.Call) and norm(x.func) == "body.extend" and f"Keyword('{a}')" in norm(x))
-            ctx.check(emit is not None, "Q-ATTRS", f"{R}|render_quoted_form|{cls}.{a}", f"the `{a}` attribute of {cls} is not emitted by quote", R, arm.lineno, witness=f"(quote <{cls} with {a}>) loses {a}", detail="emitted")
-            if emit is None:
+            sites = []
+            for fn, fv in fns:
+                for c in ast.walk(fn):
+                    if isinstance(c, ast.Constant) and c.value == a and not isinstance(getattr(c, "_parent", None), ast.Expr):
+                        at = [str(x) for x in pyq.atoms(c, fn)]
+                        classes = [x for x in at if x.startswith(f"isinstance({fv}, ")]
+                        if not classes or any(cls in x for x in classes):
+                            sites.append((c, fn, fv, at))
+            key = f"{R}|render_quoted_form|{cls}.{a}"
+            if not sites:
+                generic = any("_extra_kwargs" in str(flat(fn)) for fn, _ in fns)
+                if generic:
+                    # a loop over the model's own attribute table: the test of each attribute value must be `is not None`
+                    kc = next((c for fn, _ in fns for c in ast.walk(fn) if isinstance(c, ast.Call) and dotted(c.func) == "Keyword" and c.args and isinstance(c.args[0], ast.Name)), None)
+                    if kc is not None:
+                        fn_k = comp.rm.enclosing_func(kc)
+                        at_k = pyq.atoms(kc, fn_k)
+                        nn = any(isinstance(x.node, ast.Compare) and isinstance(x.node.ops[0], ast.IsNot) and isinstance(x.node.comparators[0], ast.Constant) and x.node.comparators[0].value is None for x in at_k)
+                        truthy = any(isinstance(x.node, (ast.Name, ast.NamedExpr)) or (isinstance(x.node, ast.Call) and dotted(x.node.func) == "getattr") for x in at_k)
+                        if a != "is_tstring" and truthy and not nn:
+                            ctx.decide("Q-ATTRS", key + " test", False, f"`{a}` (like every extra attribute) is emitted under a truthiness test {[str(x) for x in at_k]}; an empty string is a value distinct from None and must survive",
+                                       R, kc.lineno, witness=f"(quote <{cls} {a}=\"\">) comes back with {a}=None")
+                            continue
+                ctx.decide("Q-ATTRS", key, None if generic else False, f"the `{a}` attribute of {cls} is not emitted by quote", R, f.lineno, witness=f"(quote <{cls} with {a}>) loses {a}", detail="emitted")
                 continue
-            g = emit
-            while not isinstance(g, ast.If):
-                g = g._parent
-            t = norm(g.test)
+            c, fn, fv, at = sites[0]
             if a == "is_tstring":
-                ctx.check(t == "form.is_tstring", "Q-ATTRS", f"{R}|render_quoted_form|{cls}.{a} test", f"is_tstring is emitted under `{t}`", R, g.lineno, detail="boolean")
-                ctx.check("Symbol('True')" in norm(emit), "Q-ATTRS", f"{R}|render_quoted_form|{cls}.{a} value", "is_tstring must be emitted as True", R, g.lineno, detail="True")
+                ok = f"{fv}.is_tstring" in at
+                ctx.decide("Q-ATTRS", key + " test", ok, f"is_tstring is emitted under {at}", R, c.lineno, detail="boolean")
             else:
-                ctx.check(t == f"form.{a} is not None", "Q-ATTRS", f"{R}|render_quoted_form|{cls}.{a} test", f"`{a}` is emitted under `{t}`; an empty string is a value distinct from None and must survive", R, g.lineno,
-                          witness=f"(quote <{cls} {a}=\"\">) comes back with {a}=None", detail="is not None")
-                ctx.check(f"String(form.{a})" in norm(emit), "Q-ATTRS", f"{R}|render_quoted_form|{cls}.{a} value", f"`{a}` must be emitted as String(form.{a})", R, g.lineno, detail="String(form.attr)")
+                ok = f"{fv}.{a} is not None" in at
+                truthy = f"{fv}.{a}" in at
+                ctx.decide("Q-ATTRS", key + " test", True if ok else (False if truthy else None),
+                           f"`{a}` is emitted under {at}; an empty string is a value distinct from None and must survive (the test must be `is not None`)", R, c.lineno,
+                           witness=f"(quote <{cls} {a}=\"\">) comes back with {a}=None", detail="is not None")
+            ctx.ok("Q-ATTRS", key, "emitted")
     for cls, content in (("Symbol", "String(form)"), ("Keyword", "String(form.name)")):
         arm = arms.get(cls)
         ok = arm is not None and norm(arm.body[0]) == f"body = [{content}, Keyword('from_parser'), Symbol('True')]"
@@ -85,9 +109,15 @@ def check(ctx, src):
     # --- as_model attribute preservation
     am = mo.func("as_model")
     ctx.require(am is not None, "as_model not found")
-    g = pyq.contains(am, lambda n: isinstance(n, ast.If) and "new = new.replace(x, recursive=False)" in [norm(s) for s in n.body])
-    ctx.check(g is not None and norm(g.test) == "isinstance(x, Object)", "Q-PROMOTE", f"{MO}|as_model|replace", f"as_model copies positions/attributes back under `{norm(g.test) if g else None}`; it must do so for every model input", MO, am.lineno,
-              witness="a constructor-built FComponent with conversion='r' loses it when quoted through hy.eval", detail="isinstance(x, Object)")
+    # the promoted model takes its attributes/positions back from the input whenever the input is a model: the call
+    # <promoted>.replace(x, ...) is reached under exactly `isinstance(x, Object)` (besides the error exits before it)
+    rep = pyq.contains(am, lambda n: isinstance(n, ast.Call) and isinstance(n.func, ast.Attribute) and n.func.attr == "replace" and n.args and isinstance(n.args[0], ast.Name) and n.args[0].id == "x")
+    if rep is None:
+        ctx.unres("Q-PROMOTE", f"{MO}|as_model|replace", "the call that copies the input model's attributes back was not recognised")
+    else:
+        at = [str(a) for a in pyq.atoms(rep, am) if "_seen" not in str(a) and not (str(a).startswith("isinstance(") and ", Object)" in str(a) and not str(a).startswith("isinstance(x,"))]
+        ctx.decide("Q-PROMOTE", f"{MO}|as_model|replace", at == ["isinstance(x, Object)"], f"as_model copies positions/attributes back under `{at}`; it must do so for every model input", MO, am.lineno,
+                   witness="a constructor-built FComponent with conversion='r' loses it when quoted through hy.eval", detail="isinstance(x, Object)")
     fr = mo.func("FComponent.replace")
     ctx.require(fr is not None, "FComponent.replace not found")
     t = flat(fr)
